@@ -64,7 +64,7 @@ Theorem C10_typed_literal_never_matches_a_number : forall l a s, litv_ok l = tru
   lit_test (litv_value l) (Some (VNum a)) = false /\ lit_test (litv_value l) (Some (VJNum s a)) = false.
 Proof. intros l a s _. destruct l; split; reflexivity. Qed.
 Theorem C10_string_literal_matches_only_that_string : forall q body e, lit_test (litv_value (LStr q body)) e = true ->
-  e = Some (VStr (Text.text_of body)).
+  e = Some (VStr (Text.text_of (Text.unescape_cps body))).
 Proof.
   intros q body e H. destruct e as [v|]; [|discriminate H]. destruct v; try discriminate H. cbn [litv_value lit_test] in H.
   apply String.eqb_eq in H. subst. reflexivity.
